@@ -5,6 +5,7 @@ import json
 import os
 
 import attr_util as au
+import attr_vocab as av
 import attrtext_gen as atg
 from common import enc_str, VERIF
 from markup_util import enc_config, decode_expand, impl_expand, NotModelled, canon_cfg
@@ -159,6 +160,13 @@ def check_verbatim(abbr, cfg, expected):
     return None, plain
 
 
+def check_vocab(abbr, cfg, expected):
+    return av.check_vocab(abbr, cfg, expected, impl_expand, resolved_options)
+
+
+CHECKERS = {'verbatim': check_verbatim, 'vocab': check_vocab}
+
+
 def corpus_cases():
     d = os.path.join(VERIF, 'corpus', 'C03')
     out = []
@@ -169,7 +177,7 @@ def corpus_cases():
                     o = json.load(f)
                 if o.get('mode') == 'text-tree':
                     continue            # seeds of the character-level stream (attrtext_gen)
-                out.append((o['abbr'], o['config'], [(t, ms) for t, ms in o['expected']], o.get('mode', 'tags')))
+                out.append((o['abbr'], o['config'], [tuple(e) for e in o['expected']], o.get('mode', 'tags')))
     return out
 
 
@@ -206,6 +214,82 @@ def exhaustive_pairs():
     return cases
 
 
+def fails_in_fresh_process(rp):
+    """Does the property fail on this replay object in a NEW interpreter (nothing left behind by earlier calls)?"""
+    import subprocess
+    import sys
+    import tempfile
+    with tempfile.NamedTemporaryFile('w', suffix='.json', delete=False) as f:
+        json.dump({'property': 'C03', 'replay': rp}, f, default=str)
+    try:
+        r = subprocess.run([sys.executable, os.path.join(VERIF, 'check'), 'C03', '--replay', f.name],
+                           stdout=subprocess.DEVNULL, stderr=subprocess.DEVNULL, timeout=120)
+        return r.returncode == 1
+    except Exception:  # noqa
+        return False
+    finally:
+        os.unlink(f.name)
+
+
+def report_failures(ctx, fails, cases, want=10, budget=40):
+    """Every reported replay file must fail when re-run alone.  A failure seen in the long run of this process may
+    depend on what EARLIER calls left behind in the library (module-level caches, mutated shared tables): each failure
+    (smallest first) is re-run in a fresh interpreter; when it holds there, the earlier calls of this run are searched
+    for a prelude (one earlier call with a different configuration, else the whole run up to the failing call) after
+    which it fails, and the replay file records that call sequence.  Runs only when the oracle found a failure."""
+    if not fails:
+        return
+    fails = sorted(fails, key=lambda f: len(json.dumps(f[2], default=str)))
+    verified, rest = [], []
+    good_preludes = []
+    for key, what, rp, k in fails:
+        if ctx.match_known(key) is not None:
+            ctx.property_failure(key, what, rp)         # a listed finding: reported as KNOWN-FINDING
+            continue
+        if len(verified) >= want or budget <= 0:
+            rest.append((key, what, rp))
+            continue
+        budget -= 1
+        if fails_in_fresh_process(rp):
+            verified.append((key, what, rp))
+            continue
+        # order dependent: candidate preludes = earlier calls with a configuration of their own, the same syntax first
+        syntax = cases[k][1].get('syntax', 'html')
+        seen, cands = {canon_cfg(cases[k][1])}, []
+        for a2, c2, _, _ in cases[:k]:
+            cc = canon_cfg(c2)
+            if cc not in seen:
+                seen.add(cc)
+                cands.append([a2, c2])
+        cands.sort(key=lambda c: c[1].get('syntax', 'html') != syntax)
+        tries = [p for p in good_preludes] + [[c] for c in cands[:12]]
+        prefix, seen2 = [], set()
+        for a2, c2, _, _ in cases[:k]:
+            if (a2, canon_cfg(c2)) not in seen2:
+                seen2.add((a2, canon_cfg(c2)))
+                prefix.append([a2, c2])
+        tries.append(prefix)
+        found = None
+        for pre in tries:
+            if budget <= 0:
+                break
+            budget -= 1
+            if fails_in_fresh_process(dict(rp, prelude=pre)):
+                found = pre
+                break
+        if found is not None:
+            if found not in good_preludes and len(found) < 50:
+                good_preludes.append(found)
+            verified.append((key, what + ' [after %d earlier call(s) in the same process]' % len(found),
+                             dict(rp, prelude=found)))
+            ctx.cover('C03:order-dependent-failure')
+        else:
+            rest.append((key, what + ' [seen in the long run only; not reproduced in a fresh process]', rp))
+    # at most `want` lines are printed: the verified ones when there are any
+    for key, what, rp in verified or rest:
+        ctx.property_failure(key, what, rp)
+
+
 def run(ctx):
     ok = ctx.build(['props/C03.vo', 'run/MarkupRun.vo', 'run/AttrRun.vo', 'run/TextRun.vo'])
     if ok:
@@ -220,6 +304,14 @@ def run(ctx):
                        'syntaxes html/xml/jsx/vue x attribute options; exhaustive ordered pairs/triples of one name over every value '
                        'kind; a verbatim stream (wide alphabet, whole-string comparison). Oracle: tag heads of the output parsed to '
                        '(name, delimiter, value) lists = independent statement of the merge + output rules applied to the mentions. '
+                       'HTML-vocabulary stream (attr_vocab): mentions written on default-snippet names (a, label, input, textarea, '
+                       'select, img, form, ...; snippet attributes hard-coded from the Emmet docs) alone, as child / grandchild / '
+                       'sibling / group member, label with and without an input/textarea inside, values made of text and tabstop '
+                       'tokens (${n}, ${n:ph}; field first / middle / last, 1-4 tokens, unquoted / quoted / expression): exhaustive '
+                       'sweep of all shapes of <= 2 tokens per (element, name, position) + random trees x options; judged on the output '
+                       'with a marking output.field and with the default one; only an EMPTY for/id inside label>control is unclaimed. '
+                       'Every reported failure is re-run in a fresh interpreter; an order-dependent one gets the earlier call(s) of the '
+                       'run as a prelude in its replay file. '
                        'non-trivial = an element with a repeated name; distinct by abbreviation + config.')
     cases = []      # (abbr, cfg, expected, mode)
     cases += corpus_cases()
@@ -243,31 +335,44 @@ def run(ctx):
     for _ in range(n_rand // 5):
         abbr, cfg, exp = verbatim_case(rng)
         cases.append((abbr, cfg, exp, 'verbatim'))
-    wires, idx, impl = [], [], []
+    # the HTML vocabulary (default snippets, label with a control inside) x values made of text and tabstop tokens
+    sweep = av.sweep_cases()
+    for k, (abbr, cfg, exp) in enumerate(sweep):
+        if ctx.tier == 'quick' and (k + ctx.seed) % 2:
+            continue
+        cases.append((abbr, cfg, exp, 'vocab'))
+    for _ in range(1200 if ctx.tier == 'quick' else 30000):
+        abbr, cfg, exp = av.rand_case(rng, rand_options)
+        cases.append((abbr, cfg, exp, 'vocab'))
+    wires, idx, impl, fails = [], [], [], []
     for k, (abbr, cfg, exp, mode) in enumerate(cases):
-        why, plain = (check_verbatim if mode == 'verbatim' else check_case)(abbr, cfg, exp)
+        why, plain = CHECKERS.get(mode, check_case)(abbr, cfg, exp)
         impl.append(plain)
         ctx.count_eval()
         ctx.cover('C03:%s:%s' % (mode, cfg.get('syntax', 'html')))
-        nm = max([len(ms) for _, ms in exp] + [0])
+        nm = max([len(e[1]) for e in exp] + [0])
         ctx.cover('C03:mentions:%d' % nm)
-        for _, ms in exp:
+        if mode == 'vocab':
+            av.cover(ctx, exp)
+        for e in exp:
+            ms = e[1]
             names = [m['name'] for m in ms if m['name']]
             if len(names) != len(set(names)):
                 ctx.nontrivial((abbr, canon_cfg(cfg)))
                 ctx.cover('C03:repeated-name')
                 break
         if why:
-            ctx.property_failure('C03:%s|%s' % (abbr, canon_cfg(cfg)),
-                                 'C03 expand(%r, %s): %s' % (abbr, canon_cfg(cfg), why),
-                                 {'component': 'C03', 'abbr': abbr, 'config': cfg, 'expected': exp, 'mode': mode,
-                                  'impl': repr(plain)[:500], 'why': why})
+            fails.append(('C03:%s|%s' % (abbr, canon_cfg(cfg)),
+                          'C03 expand(%r, %s): %s' % (abbr, canon_cfg(cfg), why),
+                          {'component': 'C03', 'abbr': abbr, 'config': cfg, 'expected': exp, 'mode': mode,
+                           'impl': repr(plain)[:500], 'why': why}, k))
         if model is not None:
             try:
                 wires.append([2] + enc_config(cfg) + enc_str(abbr))
                 idx.append(k)
             except NotModelled:
                 ctx.cover('C03:not-modelled')
+    report_failures(ctx, fails, cases)
     dis = 0
     if wires:
         outs = model.run(wires)
@@ -311,7 +416,11 @@ def replay(ctx, obj):
         return atg.replay_expand(rp)
     if rp.get('component') == 'stmt-parse':
         return atg.replay_stmt_parse(rp)
-    exp = [(t, ms) for t, ms in rp['expected']]
-    why, plain = (check_verbatim if rp.get('mode') == 'verbatim' else check_case)(rp['abbr'], rp['config'], exp)
+    exp = [tuple(e) for e in rp['expected']]
+    for a2, c2 in rp.get('prelude') or []:
+        impl_expand(a2, c2)             # earlier calls of the run that found it (state they leave behind)
+    if rp.get('prelude'):
+        print('after %d earlier call(s), the last one expand(%r, %r):' % (len(rp['prelude']), rp['prelude'][-1][0], rp['prelude'][-1][1]))
+    why, plain = CHECKERS.get(rp.get('mode'), check_case)(rp['abbr'], rp['config'], exp)
     print('expand(%r, %r) -> %r\nproperty oracle: %s' % (rp['abbr'], rp['config'], plain, why or 'holds'))
     return 1 if why else 0
